@@ -136,3 +136,30 @@ package segmenter
 //@   ensures [cj] implies(old(cr.line) == ucd.BreakCJ, cr.line == ucd.BreakNS)
 //@   ensures [others] implies(old(cr.line) != ucd.BreakAI && old(cr.line) != ucd.BreakSG && old(cr.line) != ucd.BreakXX && old(cr.line) != ucd.BreakSA && old(cr.line) != ucd.BreakCJ, cr.line == old(cr.line))
 //@   modifies cr.line
+
+// Word boundary rules (UAX #29 section 4.1.1, in priority order), for the rules that depend only on the classes of
+// the rune before (p), the one before that (pp, Extend/Format/ZWJ skipped: WB4) and the current one (c):
+//   WB3 CR x LF; WB3a (Newline|CR|LF) /; WB3b / (Newline|CR|LF); WB3c ZWJ x ExtPict; WB3d WSegSpace x WSegSpace;
+//   WB4 x (Extend|Format|ZWJ); WB5 AHLetter x AHLetter; WB6/7 AHLetter x (MidLetter|MidNumLetQ) x AHLetter;
+//   WB7a Hebrew x SQ; WB7b/c Hebrew x DQ x Hebrew; WB8-10 Numeric/AHLetter mixes; WB11/12 Numeric x (MidNum|MidNumLetQ) x Numeric;
+//   WB13, 13a, 13b Katakana, ExtendNumLet. wbHigh is "a rule of priority above WB5 decides".
+//@ spec ahLetter(t *unicode.RangeTable) bool = t == ucd.WordBreakALetter || t == ucd.WordBreakHebrew_Letter
+//@ spec midNumLetQ(t *unicode.RangeTable) bool = t == ucd.WordBreakMidNumLet || t == ucd.WordBreakSingle_Quote
+//@ spec wbHigh(cr *cursor, i int) bool = (cr.prev == 0x0D && cr.r == 0x0A) || (cr.prevWord == ucd.WordBreakNewlineCRLF && cr.prevWordNoExtend == i-1) || cr.word == ucd.WordBreakNewlineCRLF || (cr.prev == 0x200D && cr.isExtentedPic) || (cr.prevWord == ucd.WordBreakWSegSpace && cr.word == ucd.WordBreakWSegSpace && cr.prevWordNoExtend == i-1) || cr.word == ucd.WordBreakExtendFormat
+//@ func cursor.applyWordBoundaryRules C06
+//@   mode int
+//@   ensures [wb3] implies(cr.prev == 0x0D && cr.r == 0x0A, !isWordBoundary)
+//@   ensures [wb3a-3b] implies(!(cr.prev == 0x0D && cr.r == 0x0A) && ((cr.prevWord == ucd.WordBreakNewlineCRLF && cr.prevWordNoExtend == i-1) || cr.word == ucd.WordBreakNewlineCRLF), isWordBoundary)
+//@   ensures [wb4] implies(!(cr.prevWord == ucd.WordBreakNewlineCRLF && cr.prevWordNoExtend == i-1) && cr.word == ucd.WordBreakExtendFormat, !isWordBoundary)
+//@   ensures [wb5-8-9-10] implies(!wbHigh(cr, i) && (ahLetter(cr.prevWord) || cr.prevWord == ucd.WordBreakNumeric) && (ahLetter(cr.word) || cr.word == ucd.WordBreakNumeric), !isWordBoundary && !removePrevNoExtend)
+//@   ensures [wb6-7] implies(!wbHigh(cr, i) && ahLetter(cr.prevPrevWord) && (cr.prevWord == ucd.WordBreakMidLetter || midNumLetQ(cr.prevWord)) && ahLetter(cr.word), !isWordBoundary && removePrevNoExtend)
+//@   ensures [wb7a] implies(!wbHigh(cr, i) && cr.prevWord == ucd.WordBreakHebrew_Letter && cr.word == ucd.WordBreakSingle_Quote, !isWordBoundary && !removePrevNoExtend)
+//@   ensures [wb7b-7c] implies(!wbHigh(cr, i) && cr.prevPrevWord == ucd.WordBreakHebrew_Letter && cr.prev == 0x22 && cr.word == ucd.WordBreakHebrew_Letter, !isWordBoundary && implies(!ahLetter(cr.prevWord) && cr.prevWord != ucd.WordBreakNumeric && cr.prevWord != ucd.WordBreakExtendNumLet, removePrevNoExtend))
+//@   ensures [wb11-12] implies(!wbHigh(cr, i) && cr.prevPrevWord == ucd.WordBreakNumeric && (cr.prevWord == ucd.WordBreakMidNum || midNumLetQ(cr.prevWord)) && cr.word == ucd.WordBreakNumeric, !isWordBoundary && removePrevNoExtend)
+//@   ensures [wb13] implies(!wbHigh(cr, i) && cr.prevWord == ucd.WordBreakKatakana && cr.word == ucd.WordBreakKatakana, !isWordBoundary)
+//@   ensures [wb13a] implies(!wbHigh(cr, i) && (ahLetter(cr.prevWord) || cr.prevWord == ucd.WordBreakNumeric || cr.prevWord == ucd.WordBreakKatakana || cr.prevWord == ucd.WordBreakExtendNumLet) && cr.word == ucd.WordBreakExtendNumLet, !isWordBoundary)
+//@   ensures [wb13b] implies(!wbHigh(cr, i) && cr.prevWord == ucd.WordBreakExtendNumLet && (ahLetter(cr.word) || cr.word == ucd.WordBreakNumeric || cr.word == ucd.WordBreakKatakana), !isWordBoundary)
+//@   ensures [wb15-16] implies(!wbHigh(cr, i) && cr.word == ucd.WordBreakRegional_Indicator && cr.prevWord == ucd.WordBreakRegional_Indicator && old(cr.isPrevWordRIOdd), !isWordBoundary)
+//@   ensures [wb999-letters-vs-others] implies(!wbHigh(cr, i) && ahLetter(cr.prevWord) && cr.word != ucd.WordBreakALetter && cr.word != ucd.WordBreakHebrew_Letter && cr.word != ucd.WordBreakNumeric && cr.word != ucd.WordBreakExtendNumLet && cr.word != ucd.WordBreakSingle_Quote && cr.word != ucd.WordBreakRegional_Indicator, isWordBoundary && !removePrevNoExtend)
+//@   ensures [ri-parity] cr.isPrevWordRIOdd == ite(cr.word == ucd.WordBreakExtendFormat, old(cr.isPrevWordRIOdd), cr.word == ucd.WordBreakRegional_Indicator && !old(cr.isPrevWordRIOdd))
+//@   modifies cr.isPrevWordRIOdd
